@@ -83,6 +83,63 @@ pub fn strategy() -> impl Strategy<Value = Case> {
         })
 }
 
+/// Size-boundary mode: a flat or two-layer configuration with wide groups (sizes around 16 / 32 / 64).
+pub fn strategy_wide(max_width: usize) -> impl Strategy<Value = Case> {
+    (
+        prop_oneof![3 => 14usize..=20, 2 => 30usize..=36, 1 => 62usize..=68, 1 => 10usize..=130],
+        0usize..=2,
+        vec(any::<u16>(), 32),
+        1usize..=2,
+        0u8..4,
+        vec((any::<u16>(), any::<u16>()), 0..=4),
+    )
+        .prop_map(move |(width, tops, picks, ncmd, mode_k, undef)| {
+            let width = width.min(max_width);
+            let mut targets = vec![];
+            for i in 0..width {
+                targets.push(crate::model::TargetSpec::new(&format!("w{:03}", i)));
+            }
+            for j in 0..tops {
+                let mut t = crate::model::TargetSpec::new(&format!("top{}", j));
+                for i in 0..width {
+                    if picks[(i + 5 * j) % picks.len()] % 3 != 0 {
+                        t.uses.push(format!("w{:03}", i));
+                    }
+                }
+                targets.push(t);
+            }
+            let rot = picks[0] as usize % targets.len();
+            targets.rotate_left(rot);
+            let config = ConfigSpec {
+                targets,
+                ..Default::default()
+            };
+            let n = config.targets.len();
+            let commands: Vec<String> = (0..ncmd).map(|i| format!("c{}", i)).collect();
+            let all = config.target_paths();
+            let (state, mode) = match mode_k {
+                0 => (State::NoCheckpoint, Mode::Auto),
+                1 => (State::Edits(all.iter().map(|t| format!("{}/new.txt", t)).collect()), Mode::Auto),
+                2 => (State::NoCheckpoint, Mode::TargetsDeps(if tops > 0 { vec!["top0".to_string()] } else { all.clone() })),
+                _ => (State::Clean, Mode::TargetsDeps(all.clone())),
+            };
+            let mut undefined = vec![];
+            for (a, b) in undef {
+                let e = (commands[pick(a, ncmd)].clone(), config.targets[pick(b, n)].path.clone());
+                if !undefined.contains(&e) {
+                    undefined.push(e);
+                }
+            }
+            Case {
+                config,
+                state,
+                mode,
+                commands,
+                undefined,
+            }
+        })
+}
+
 pub fn check(case: &Case, w: usize) -> CheckResult {
     let cfg = &case.config;
     let mut env = Env::new(w);
@@ -266,11 +323,14 @@ pub fn check(case: &Case, w: usize) -> CheckResult {
         .class_if(selected.is_empty(), "empty-selection")
         .class_if(bigger_closure, "closure-larger")
         .class_if(!case.undefined.is_empty(), "some-undefined")
+        .class_if(selected.len() > 16, "selection>16")
+        .class_if(selected.len() > 32, "selection>32")
+        .class_if(selected.len() > 64, "selection>64")
         .inv(env.invocations))
 }
 
 pub fn run(ctx: &mut Ctx) {
-    ctx.rule = "acyclic configuration (<=8 targets, nesting/uses/ignores) x repository state (no checkpoint / clean / new files in targets, uses paths, siblings, outside) \
+    ctx.rule = "acyclic configuration (<=8 targets, nesting/uses/ignores; plus a size-boundary mode with groups of 14-20, 30-36, 62-68 (thorough: up to 130) independent targets) x repository state (no checkpoint / clean / new files in targets, uses paths, siblings, outside) \
 x 1-2 commands with some (command,target) undefined x mode (auto / -t S / -t S --deps). oracle: selection == `analyze` taken immediately before (auto), S (-t), model closure(S) (--deps); \
 run groups == analyze groups (auto), singletons and non-overlapping helper intervals (-t), valid layering (--deps); every (command,target) once in the result; exactly one start record when \
 defined, none when undefined or unselected. non-trivial = selection is a proper non-empty subset, or the closure is strictly larger than S; distinct by SHA-256"
@@ -278,6 +338,9 @@ defined, none when undefined or unselected. non-trivial = selection is a proper 
     ctx.assumptions = vec!["all helpers exit 0".into(), "new file names are ASCII (quoting of other names is C02's subject)".into()];
     let n = ctx.n(300, 6000);
     ctx.drive("run", strategy, n, check);
+    let n2 = ctx.n(30, 500);
+    let max_width = if ctx.thorough() { 130 } else { 68 };
+    ctx.drive("wide", || strategy_wide(max_width), n2, check);
 }
 
 pub fn replay(ctx: &Ctx, label: &str, case: Value) -> Result<(), String> {
